@@ -550,11 +550,6 @@ theorem superCompound_eq0 (f : Nat) (af : Bool) (A B : Compound) (ps : Complex) 
   constructor <;> intro hh s hs <;> have h1 := hh s hs <;> have h2 := (List.all_eq_true.1 h) s hs <;>
     cases s <;> simp_all [Simple.isSel]
 
-theorem okSkip_nil (prev : Option Rel) : okSkip prev [] = true := by
-  cases prev with
-  | none => rfl
-  | some r => cases r <;> simp [okSkip, sibChain]
-
 theorem compatPrev_single (prev : Option Rel) (c : Compound) : compatPrev prev [.compound c] = true := by
   cases prev with
   | none => rfl
